@@ -997,11 +997,265 @@ def normalise_cases(ctx):
 STREAM_SETS = [[], ['l1'], ['l2'], ['l1', 'l2']]
 
 
+# ------------------------------------------------------------------ (P) which products get APPLIED
+
+def spec_select(products, inputs, avail, skip):
+    """documented: with skipping every requested product that is in the data set (a correction sensor for EVERY data
+    input) is applied once, in request order, the others are skipped; without, all must be there (KeyError)"""
+    ok = [p for p in products if all(i in avail.get(p, ()) for i in inputs)]
+    if not skip and len(ok) != len(products):
+        return 'KeyError'
+    return list(dict.fromkeys(ok))
+
+
+def missing_shape(products, ok):
+    """where the unavailable products stand in the (expanded) list"""
+    miss = [k for k, p in enumerate(products) if p not in ok]
+    if not miss:
+        return 'none'
+    if len(miss) == len(products):
+        return 'all'
+    last_ok = max(k for k, p in enumerate(products) if p in ok)
+    return 'before_present' if miss[0] < last_ok else 'at_end'
+
+
+def run_calc_correction(cache, inputs, products, all_cal_freqs, skip, nchan=2, ndump=2):
+    from katdal.applycal import calc_correction
+    corrprods = [(a, b) for i, a in enumerate(inputs) for b in inputs[i:]]
+    chunks = ((ndump,), (nchan,), (len(corrprods),))
+    try:
+        final, corr = calc_correction(chunks, cache, corrprods, list(products), np.arange(nchan, dtype=float) + 100.0,
+                                      all_cal_freqs, skip)
+    except KeyError:
+        return 'KeyError', None, corrprods
+    return list(final), corr, corrprods
+
+
+def check_select(ctx, case):
+    """calc_correction's product loop on a SensorCache holding injected correction sensors (one scalar per dump)"""
+    products, inputs, skip = case['products'], case['inputs'], case['skip']
+    avail = {p: list(l) for p, l in case['avail']}
+    T = 2
+    cache = SensorCache({}, np.arange(T, dtype=float), 1.0, virtual={})
+    value = {}
+    for k, (p, l) in enumerate(case['avail']):
+        s, t = p.rsplit('.', 1)
+        value[p] = 2.0 ** ((k % 3) - 1)
+        for inp in l:
+            cache['Calibration/Corrections/%s/%s/%s' % (s, t, inp)] = np.full(T, value[p], np.complex64)
+    freqs = {p.rsplit('.', 1)[0]: np.arange(2, dtype=float) + 100.0 for p in avail}
+    got, corr, corrprods = run_calc_correction(cache, inputs, products, freqs, skip)
+    mo = ctx.model([[141, [0, int(skip), [codes(p) for p in products], [codes(i) for i in inputs],
+                           [[codes(p), [codes(i) for i in l]] for p, l in case['avail']]]]])[0]
+    mo = 'KeyError' if not mo else [''.join(chr(c) for c in s) for s in mo[0]]
+    want = spec_select(products, inputs, avail, skip)
+    ok = [p for p in products if all(i in avail.get(p, ()) for i in inputs)]
+    shape = 'skip=%s;missing=%s' % (skip, missing_shape(products, ok))
+    if got != want:
+        ctx.disagree('kind=select;%s;symptom=%s' % (shape, 'error' if 'KeyError' in (got, want) else 'applied_list'),
+                     case, got, mo, 'calc_correction does not apply exactly the requested products that are in the '
+                     'data set (skipping) / does not insist on all of them (strict)', spec=want)
+    if got != mo:
+        ctx.disagree('kind=select;%s;symptom=%s' % (shape, 'error' if 'KeyError' in (got, mo) else 'applied_list'),
+                     case, got, mo, 'calc_correction final_cal_products differ from the model', kind='tie')
+    if isinstance(got, list):
+        # the correction array must be made of exactly the products named: prod_p v_p^2
+        exp = 1.0
+        for p in got:
+            exp *= value[p] ** 2
+        if (corr is None) != (not got) or (corr is not None and not np.all(
+                corr.compute(scheduler='synchronous') == np.complex64(exp))):
+            ctx.disagree('kind=select;%s;symptom=array_not_of_named_products' % shape, case,
+                         None if corr is None else show(corr.compute(scheduler='synchronous')), exp,
+                         'the corrections array is not the product of the corrections of final_cal_products')
+    ctx.traces_validated += 1
+    ctx.note_case(('P0', repr(case)), nontrivial=0 < len(ok) < len(products), sample=case if len(products) <= 3 else None)
+    ctx.count('select:skip=%s' % skip)
+    ctx.count('select:missing=' + missing_shape(products, ok))
+
+
+PSTREAMS = ['l1', 'l2', 'l3']
+PINPUTS = ['m000h', 'm000v', 'm001h', 'm001v', 'm002h']
+
+
+def gen_select(rng):
+    ninp = rng.randint(1, 4)
+    inputs = sorted(rng.sample(PINPUTS, ninp))
+    pool = [s + '.' + t for s in PSTREAMS for t in TYPES]
+    n = rng.randint(1, 7)
+    products = [rng.choice(pool) for _ in range(n)] if rng.random() < 0.3 else rng.sample(pool, n)
+    r = rng.random()
+    avail = []
+    for p in dict.fromkeys(products + rng.sample(pool, 2)):
+        q = rng.random()
+        if r < 0.15 or q < 0.55:
+            l = list(inputs)                                    # complete
+        elif q < 0.75:
+            l = []                                              # absent altogether
+        else:
+            l = [i for i in inputs if rng.random() < 0.6]       # some inputs lack a solution
+            if rng.random() < 0.5:
+                l = l + ['m009h']
+        avail.append([p, l])
+    return dict(kind='select', products=products, inputs=inputs, avail=avail, skip=rng.random() < 0.65)
+
+
+def products_cache(case):
+    """SensorCache with the raw solution sensors of every substream and the virtual sensors of every cal stream"""
+    N = case['N']
+    cache = {'Observation/target': CategoricalData([0], [0, N])}
+    for st in case['streams']:
+        npol, nant = len(st['pols']), len(st['ants'])
+        for sub, types in zip(st['substreams'], st['sub_types']):
+            for t in types:
+                if t == 'K':
+                    v = np.zeros((npol, nant))
+                elif t == 'B':
+                    v = np.full((st['n_chans'], npol, nant), 2, np.complex64)
+                else:
+                    v = np.full((npol, nant), 0.5, np.complex64)
+                cache['%s_product_%s' % (sub, t)] = raw_sensor([1.0], [v])
+    # virtual={} explicitly: the default argument of SensorCache is ONE shared dict (templates of earlier caches leak)
+    sc = SensorCache(cache, timestamps=np.arange(N, dtype=float), dump_period=1., props=SENSOR_PROPS, virtual={})
+    data_freqs = np.arange(case['F'], dtype=float) + 100.0
+    cal_freqs = {}
+    for st in case['streams']:
+        attrs = dict(antlist=st['ants'], pol_ordering=st['pols'])
+        if st['spectral']:
+            attrs.update(center_freq=101.0, bandwidth=float(st['n_chans']), n_chans=st['n_chans'])
+        f = add_applycal_sensors(sc, attrs, data_freqs, st['alias'], cal_substreams=st['substreams'], gaincal_flux=None)
+        if f is not None:
+            cal_freqs[st['alias']] = f
+    return sc, cal_freqs
+
+
+def wire_streams(streams):
+    return [[codes(st['alias']), [codes(a + p) for p in st['pols'] for a in st['ants']],
+             [[codes(t) for t in types] for types in st['sub_types']]]
+            for st in streams if st['spectral'] and st['ants'] and st['pols']]
+
+
+def spec_products(req, streams, inputs):
+    """documented rules end to end, independent of the Coq model: (list | 'ValueError' | 'KeyError')"""
+    reg = [st for st in streams if st['spectral'] and st['ants'] and st['pols']]
+    names = [st['alias'] for st in reg]
+    n = spec_normalise(req, names)
+    if n is None:
+        return 'ValueError', []
+    avail = {}
+    for st in reg:
+        have = [a + p for p in st['pols'] for a in st['ants']]
+        for t in TYPES:
+            if all(t in types for types in st['sub_types']):
+                avail[st['alias'] + '.' + t] = have
+    return spec_select(n[0], inputs, avail, n[1]), n[0]
+
+
+def parse_outcome(o):
+    return 'ValueError' if o[0] == 0 else 'KeyError' if o[0] == 1 else [''.join(chr(c) for c in s) for s in o[1]]
+
+
+def check_products(ctx, case):
+    """request -> _normalise_cal_products -> calc_correction on a SensorCache whose streams were registered by
+    add_applycal_sensors from raw solution sensors: which products are applied"""
+    req = case['request'] if isinstance(case['request'], str) else list(case['request'])
+    inputs = case['inputs']
+    with warnings.catch_warnings():
+        warnings.simplefilter('ignore')
+        sc, cal_freqs = products_cache(case)
+        try:
+            norm, skip = _normalise_cal_products(req, cal_freqs.keys())
+        except ValueError:
+            got = 'ValueError'
+        else:
+            got = run_calc_correction(sc, inputs, norm, cal_freqs, skip, nchan=case['F'], ndump=case['N'])[0]
+    mo = ctx.model([[141, [1, wire_req(req), wire_streams(case['streams']), [codes(i) for i in inputs]]]])[0]
+    mo, mspec = parse_outcome(mo[0]), parse_outcome(mo[1])
+    want, expanded = spec_products(req, case['streams'], inputs)
+    sig = products_signature(req, case['streams'], expanded, want)
+    if got != want or got != mspec:
+        ctx.disagree(sig + ';symptom=%s' % symptom(got, want), case, got, mo,
+                     'the products applied are not the documented expansion of the request with missing products '
+                     'skipped (wildcard requests) / rejected (fully qualified requests)',
+                     spec=want if got != want else mspec)
+    if got != mo:
+        ctx.disagree(sig + ';symptom=%s' % symptom(got, mo), case, got, mo,
+                     'the products applied differ from the model of _normalise_cal_products + calc_correction',
+                     kind='tie')
+    ctx.traces_validated += 1
+    ctx.note_case(('P1', repr(case)), nontrivial=isinstance(want, list) and 0 < len(want) < len(set(expanded)),
+                  sample=case if req in ('all', 'default') else None)
+    ctx.count('products:' + (want if isinstance(want, str) else 'applied'))
+    ctx.count('products:missing=' + (missing_shape(expanded, want) if isinstance(want, list) else 'n/a'))
+
+
+def symptom(got, want):
+    if isinstance(got, str) or isinstance(want, str):
+        return 'outcome_%s_instead_of_%s' % (got if isinstance(got, str) else 'list', want if isinstance(want, str) else 'list')
+    if set(got) < set(want):
+        return 'present_product_not_applied'
+    if set(got) > set(want):
+        return 'missing_product_applied'
+    return 'order_or_duplicates' if set(got) == set(want) else 'applied_list'
+
+
+def products_signature(req, streams, expanded, want):
+    names = [st['alias'] for st in streams if st['spectral'] and st['ants'] and st['pols']]
+    return 'kind=products;form=%s;missing=%s' % (
+        request_form(req if isinstance(req, str) else list(req), names),
+        missing_shape(expanded, want) if isinstance(want, list) else 'n/a')
+
+
+P_REQUESTS = ['all', 'default', 'l1', 'l2', 'l1,l2', 'l2,l1', 'K', 'B', 'G', 'GPHASE', 'GAMP_PHASE', 'K,B,G', 'G,B,K',
+              'K,B,G,GPHASE', 'GPHASE,G', 'l1.G', 'l1.K,l1.B,l1.G', 'l1.G,l2.GPHASE', 'l2.GPHASE,l1.G', 'l1.K,l1.G',
+              'l2.GAMP_PHASE', 'l1.K, G', 'G,l1.K', 'l1.B,l2', 'l2,l1.B', 'GPHASE,l1', 'l1.GPHASE,l1',
+              'l1.K,l1.B,l1.G,GPHASE', ['l1.B', 'G'], ['l2.GPHASE'], ['l1', 'GAMP_PHASE'], 'l3', 'l1.G,X', 'l3.G,l1',
+              'l1.G,l1.G', 'G,G', 'l1,l1.K', '']
+
+
+def gen_stream(rng, alias, ants, pols):
+    nsub = 1 if alias == 'l1' or rng.random() < 0.5 else 2
+    r = rng.random()
+    if alias == 'l1':
+        base = ['K', 'B', 'G'] if r < 0.4 else [t for t in TYPES if rng.random() < 0.55]
+    else:
+        base = ['GPHASE'] if r < 0.3 else ['GPHASE', 'GAMP_PHASE'] if r < 0.5 else [t for t in TYPES if rng.random() < 0.4]
+    sub_types = [list(base) for _ in range(nsub)]
+    if nsub == 2 and rng.random() < 0.4 and base:
+        sub_types[rng.randrange(2)].remove(rng.choice(base))        # one substream lacks a product
+    my_ants = list(ants)
+    if rng.random() < 0.2 and len(my_ants) > 1:
+        my_ants.pop(rng.randrange(len(my_ants)))                     # cal ran without one antenna
+    if rng.random() < 0.3:
+        rng.shuffle(my_ants)
+    my_pols = list(pols) if rng.random() < 0.7 else list(reversed(pols))
+    return dict(alias=alias, substreams=['cal'] if alias == 'l1' else ['img_%s_selfcal' % 'ab'[k] for k in range(nsub)],
+                sub_types=sub_types, ants=my_ants, pols=my_pols, n_chans=rng.choice([1, 2, 4]),
+                spectral=rng.random() < 0.93)
+
+
+def gen_products(rng):
+    ants = ['m000', 'm001', 'm002'][:rng.randint(1, 3)]
+    pols = ['v', 'h']
+    r = rng.random()
+    aliases = ['l1', 'l2'] if r < 0.6 else ['l1'] if r < 0.85 else ['l2'] if r < 0.95 else []
+    streams = [gen_stream(rng, a, ants, pols) for a in aliases]
+    data_ants = list(ants) if rng.random() < 0.8 else ants[:max(1, len(ants) - 1)]
+    inputs = sorted(a + p for a in data_ants for p in (pols if rng.random() < 0.8 else pols[:1]))
+    if rng.random() < 0.6:
+        req = rng.choice(P_REQUESTS)
+    else:
+        atoms = ['l1', 'l2', 'K', 'B', 'G', 'GPHASE', 'GAMP_PHASE'] + [s + '.' + t for s in ('l1', 'l2') for t in TYPES]
+        items = [rng.choice(atoms) for _ in range(rng.randint(1, 4))]
+        req = ','.join(items) if rng.random() < 0.6 else items
+    return dict(kind='products', request=req, streams=streams, inputs=inputs, N=rng.randint(2, 4), F=rng.choice([1, 2, 4]))
+
+
 # ------------------------------------------------------------------ driver
 
 CHECKS = {'unwrap': lambda ctx, c: check_unwrap(ctx, [Fr(p) for p in c['phases']]), 'cinterp': check_cinterp,
           'delay': check_delay, 'bandpass': check_bandpass, 'gain': check_gain, 'flux': check_flux,
-          'stitch': check_stitch, 'e2e': check_end_to_end,
+          'stitch': check_stitch, 'e2e': check_end_to_end, 'select': check_select, 'products': check_products,
           'normalise': lambda ctx, c: check_normalise(ctx, c['request'] if isinstance(c['request'], str)
                                                       else list(c['request']), c['streams'])}
 
@@ -1032,6 +1286,10 @@ def run(ctx):
         check_stitch(ctx, gen_stitch(rng))
     for _ in range(ctx.scale(100, 1500)):
         check_end_to_end(ctx, gen_end_to_end(rng))
+    for _ in range(ctx.scale(400, 6000)):
+        check_select(ctx, gen_select(rng))
+    for _ in range(ctx.scale(400, 6000)):
+        check_products(ctx, gen_products(rng))
     for streams in STREAM_SETS:
         for req in normalise_cases(ctx):
             check_normalise(ctx, req, streams)
